@@ -5,6 +5,8 @@ pub mod c15;
 pub mod c18;
 pub mod full_props;
 pub mod handshake_props;
+pub mod im_model;
+pub mod im_props;
 pub mod mrp_oracles;
 pub mod mrp_props;
 
@@ -41,5 +43,7 @@ pub fn registry() -> Vec<PropertyDef> {
     v.extend(admin_props::defs());
     v.extend(c07::defs());
     v.extend(handshake_props::defs());
+    v.extend(im_props::defs());
+    v.extend(im_props::defs_c13());
     v
 }
